@@ -234,6 +234,35 @@ pub fn run(env: &Env) -> PropRun {
         let gl = |src: &mut Src, _i: usize| large_case(src, true, &[(CAT_LINES, 10), (CAT_C0, 6), (CAT_ESCFE, 5), (CAT_STBM, 4), (CAT_TEXT, 3), (CAT_CUP, 4), (CAT_SGR, 2), (CAT_REL, 2)], 12);
         parts.push(random_part(env, "large-screens", env.tier.scale(500, 40), &gl, &j));
     }
+    // magnitudes: regions and counts beyond 255/256 on screens with 257 and 300 rows
+    {
+        let sizes = [(2usize, 257usize), (3, 300)];
+        let mut big: Vec<Case> = vec![];
+        for (cols, rows) in sizes {
+            for (t, b) in [(1usize, rows - 1), (1, 256), (1, 255), (2, rows), (2, 257.min(rows)), (1, rows), (3, 260.min(rows))] {
+                for n in ["", "1", "254", "255", "256", "257", "299", "65535"] {
+                    for f in ['S', 'T', 'L', 'M'] {
+                        for row in [0usize, 1, 255, rows - 1] {
+                            for alt in [false, true] {
+                                let mut s = String::new();
+                                if alt {
+                                    s.push_str("\x1b[?1047h");
+                                }
+                                // distinct content on the rows that matter (first, around the
+                                // 255/256 boundary, last) - every step of the set-up is walked
+                                for r in [0usize, 1, 2, 253, 254, 255, 256, rows - 2, rows - 1] {
+                                    s.push_str(&format!("\x1b[{};1H{}", r + 1, (b'a' + (r % 26) as u8) as char));
+                                }
+                                s.push_str(&format!("\x1b[{};{}r\x1b[42m\x1b[{};1H", t, b, row + 1));
+                                big.push(Case::new(cols, rows, None).feed(s).feed(format!("\x1b[{}{}", n, f)));
+                            }
+                        }
+                    }
+                }
+            }
+        }
+        parts.push(run_part(env, "enum-tall", big.len(), true, "2x257 and 3x300: 7 regions with heights around 255/256/257 x {SU,SD,IL,DL} x counts {omitted,1,254..257,299,65535} x 4 cursor rows x primary/alternate", &|i| big.get(i).cloned(), &j));
+    }
     parts.push(random_part(env, "random-histories", env.tier.scale(60_000, 40), &gen_random, &j));
     PropRun {
         parts,
